@@ -40,6 +40,11 @@ def run_proofs(report, prop, modules, timeout_ms=None):
     timeout_ms = timeout_ms or (prove.THOROUGH_MS if tier_name == "thorough" else prove.QUICK_MS)
     baseline = load_baseline()
     rebase = os.environ.get("VERIF_REBASELINE") == "1"
+    from .rtc import extvalid
+    n_ext, ext_fails = extvalid.run(common.seed(), 25)
+    report.coverage["ext_valid"] = {"checks": n_ext, "failed": ext_fails}
+    for f in ext_fails:
+        report.failures.append(f"ext-valid: the assumed external contract '{f}' disagrees with the real library")
     all_recs = []
     tot = disch = 0
     solver_ms = {}
